@@ -371,3 +371,27 @@ Proof.
   - intros p Hp. apply PP. unfold row_parts in Hp. apply (proj1 (sort_parts_in _ _)) in Hp. unfold obj_parts in Hp.
     apply filter_In in Hp. exact (proj1 Hp).
 Qed.
+
+(* ---------- arbitrary histories (any operations in between) ---------- *)
+Lemma run_results_is_run_from : forall ops i hist s,
+  snd (run_from i hist s ops) = rev hist ++ run_results i hist s ops.
+Proof.
+  induction ops as [|o ops IH]; intros i hist s; cbn [run_from run_results].
+  - cbn. rewrite app_nil_r. reflexivity.
+  - destruct (step i hist s o) as [s' r]. rewrite IH. cbn. rewrite <- app_assoc. reflexivity.
+Qed.
+
+Lemma ack_at_offset_any_history : forall ops i hist s n b k c o e z,
+  nth_error ops n = Some (OApp b k c (Some o)) ->
+  nth_error (run_results i hist s ops) n = Some (RAppend e z) ->
+  exists sn, nth_error (pre_states i hist s ops) n = Some sn /\ o = cur_size sn b k.
+Proof.
+  induction ops as [|x ops IH]; intros i hist s n b k c o e z Hn Hr; [destruct n; discriminate|].
+  cbn [run_results pre_states] in *. destruct (step i hist s x) as [s' r] eqn:ST.
+  destruct n as [|n]; cbn in Hn, Hr |- *.
+  - inversion Hn; subst x. inversion Hr; subst r. exists (with_ids s i). split; [reflexivity|].
+    cbn [step] in ST.
+    assert (is_ack (snd (op_append (with_ids s i) i b k c (Some o))) = true) as A by (rewrite ST; reflexivity).
+    apply append_offset_rule in A. exact (proj1 A).
+  - eapply IH; eassumption.
+Qed.
